@@ -2,12 +2,15 @@ package c20
 
 import (
 	"bytes"
+	"context"
+	"errors"
 	"fmt"
 	"io"
 	"net"
 	"net/http"
 	"net/http/httptest"
 	"net/url"
+	"os"
 	"runtime"
 	"strconv"
 	"strings"
@@ -563,6 +566,10 @@ func (c cannedRT) RoundTrip(r *http.Request) (*http.Response, error) {
 	}, nil
 }
 
+type errRT struct{ err error }
+
+func (e errRT) RoundTrip(*http.Request) (*http.Response, error) { return nil, e.err }
+
 type nopBody struct{ *strings.Reader }
 
 func (nopBody) Close() error { return nil }
@@ -610,8 +617,24 @@ func TestC20ProxyLogging(t *testing.T) {
 			fixed = fixed.UTC()
 		}
 		tick := 0
+		// how the exchange with the upstream ends: an answer, or one of the failures the
+		// proxy turns into a status of its own (incl. the client going away: 499)
+		outcome := rapid.SampledFrom([]string{"answer", "answer", "answer", "client-gone", "upstream-eof", "upstream-timeout", "upstream-refused", "other-error"}).Draw(t, "outcome")
+		var tr http.RoundTripper = cannedRT{status, body}
+		switch outcome {
+		case "client-gone":
+			tr = errRT{context.Canceled}
+		case "upstream-eof":
+			tr = errRT{io.EOF}
+		case "upstream-timeout":
+			tr = errRT{&net.OpError{Op: "read", Net: "tcp", Err: os.ErrDeadlineExceeded}}
+		case "upstream-refused":
+			tr = errRT{&net.OpError{Op: "dial", Net: "tcp", Err: errors.New("connection refused")}}
+		case "other-error":
+			tr = errRT{errors.New("boom")}
+		}
 		p := &proxy.HTTPProxy{
-			Transport: cannedRT{status, body},
+			Transport: tr,
 			Lookup: func(r *http.Request) *route.Target {
 				return &route.Target{Service: "svc", URL: &url.URL{Scheme: "http", Host: upstream, Path: "/"}}
 			},
@@ -635,12 +658,16 @@ func TestC20ProxyLogging(t *testing.T) {
 		if panicked != nil {
 			t.Fatalf("request handler panicked while logging: %v (format %q upstream %q)", panicked, format, upstream)
 		}
-		if rec.Code != status || rec.Body.String() != body || rec.Header().Get("X-Up") != "yes" {
+		if outcome != "answer" {
+			// the status the proxy chose is what the client saw and what the log line must say
+			status, body = rec.Code, rec.Body.String()
+			hx.Class("proxy-outcome:" + outcome)
+		} else if rec.Code != status || rec.Body.String() != body || rec.Header().Get("X-Up") != "yes" {
 			t.Fatalf("response altered: code %d body %q hdr %v; want %d %q", rec.Code, rec.Body.String(), rec.Header(), status, body)
 		}
 		line := string(bytes.Join(w.writes, nil))
 		if !strings.HasSuffix(line, "\n") || strings.Count(line, "\n") != 1 {
-			t.Fatalf("log output is not exactly one line: %q", line)
+			t.Fatalf("log output is not exactly one line: %q (exchange ended with: %s, status %d)", line, outcome, status)
 		}
 		// the event the proxy must have built, rendered by the reference
 		q := ""
